@@ -304,10 +304,11 @@ impl<'a> Parser<'a> {
                 self.advance(); // consume namespace/module
 
                 let is_declaration = if self.check_identifier() {
-                    // Check if next is { (namespace declaration) or something else
+                    // Check if next is { or . (namespace declaration, possibly with a dotted
+                    // name) or something else
                     let saved2 = self.current.clone();
                     self.advance();
-                    let result = self.check(&TokenKind::LBrace);
+                    let result = self.check(&TokenKind::LBrace) || self.check(&TokenKind::Dot);
                     self.current = saved2;
                     result
                 } else {
@@ -1609,6 +1610,11 @@ impl<'a> Parser<'a> {
         self.advance();
 
         let id = self.parse_identifier()?;
+        // `namespace A.B.C { .. }` is `namespace A { export namespace B { export namespace C { .. } } }`
+        let mut inner_ids = vec![];
+        while self.match_token(&TokenKind::Dot) {
+            inner_ids.push(self.parse_identifier()?);
+        }
         self.require_token(&TokenKind::LBrace)?;
 
         let mut body = vec![];
@@ -1619,11 +1625,25 @@ impl<'a> Parser<'a> {
         self.require_token(&TokenKind::RBrace)?;
 
         let span = self.span_from(start);
-        Ok(NamespaceDeclaration {
-            id,
-            body: body.into(),
-            span,
-        })
+        let mut body: Rc<[Statement]> = body.into();
+        while let Some(inner_id) = inner_ids.pop() {
+            let inner = NamespaceDeclaration {
+                id: inner_id,
+                body,
+                span,
+            };
+            body = Rc::from([Statement::Export(Box::new(ExportDeclaration {
+                declaration: Some(Box::new(Statement::NamespaceDeclaration(Box::new(inner)))),
+                specifiers: vec![],
+                source: None,
+                namespace_export: None,
+                star: false,
+                default: false,
+                type_only: false,
+                span,
+            }))]);
+        }
+        Ok(NamespaceDeclaration { id, body, span })
     }
 
     /// Parse ambient declarations: declare const/let/var/function/class/namespace/module/global
